@@ -1,0 +1,177 @@
+//go:build verif
+
+// Contracts for package olvm (C04 for the OLVM handler: embedded Ethereum signature, memo nonce; C17 gas/fee link; C18).
+// Comment-only file, read by /verif/govc.
+
+package olvm
+
+// ---------------------------------------------------------------- Ethereum transaction objects (go-ethereum core/types, assumed)
+//
+// Cryptography is uninterpreted. An ethtypes.Transaction object x is described by
+//   ethBody(x) : an identifier of its unsigned content (nonce, to, value, gas, gas price, data)
+//   ethSig(x)  : the 65 signature bytes it was given by WithSignature
+//   ethChain(x): the chain id encoded in its signature values (what ChainId() returns)
+// a Signer s by sgnChain(s), the chain id it was built for, and EIP-155 sender recovery is the function
+//   eip155Sender(chain, body, sig).
+//@ model ethBody(Tx) int
+//@ model ethSig(Tx) bytes
+//@ model ethChain(Tx) int
+//@ model sgnChain(Signer) int
+//@ ghost func legacyCall(nonce int, to common.Address, value int, gas int, price int, data bytes) int
+//@ ghost func legacyCreate(nonce int, value int, gas int, price int, data bytes) int
+//@ ghost func eip155Sender(chain int, body int, sig bytes) common.Address
+// ethAddrOf(b) = common.BytesToAddress(b), ethAddrBytes(a) = a.Bytes(): declared in vm/verif_contracts_c17.go
+//@ ghost func chainIdOf(chain string) int
+//@ ghost func memoNonce(memo string) int
+
+//@ assume func github.com/ethereum/go-ethereum/core/types.NewTx
+//@   modifies nothing
+//@   ensures result != nil && fresh(result)
+//@   ensures dyntype(inner, "*types.LegacyTx") ==> ethGas(result) == unbox(inner, "*types.LegacyTx").Gas
+//@   ensures dyntype(inner, "*types.LegacyTx") && unbox(inner, "*types.LegacyTx").To == nil ==> ethBody(result) == legacyCreate(unbox(inner, "*types.LegacyTx").Nonce, big(unbox(inner, "*types.LegacyTx").Value), unbox(inner, "*types.LegacyTx").Gas, big(unbox(inner, "*types.LegacyTx").GasPrice), unbox(inner, "*types.LegacyTx").Data)
+//@   ensures dyntype(inner, "*types.LegacyTx") && unbox(inner, "*types.LegacyTx").To != nil ==> ethBody(result) == legacyCall(unbox(inner, "*types.LegacyTx").Nonce, *unbox(inner, "*types.LegacyTx").To, big(unbox(inner, "*types.LegacyTx").Value), unbox(inner, "*types.LegacyTx").Gas, big(unbox(inner, "*types.LegacyTx").GasPrice), unbox(inner, "*types.LegacyTx").Data)
+
+// WithSignature -> Signer.SignatureValues -> decodeSignature PANICS unless len(sig) == 65 (go-ethereum v1.10.8
+// core/types/transaction_signing.go:472); with an EIP-155 signer the chain id put into V is the signer's own.
+//@ assume func github.com/ethereum/go-ethereum/core/types.(*Transaction).WithSignature
+//@   requires len(sig) == 65                                                                                  // C18.eth-sig-length
+//@   modifies nothing
+//@   ensures err == nil ==> result0 != nil && fresh(result0) && ethBody(result0) == ethBody(self) && ethSig(result0) == sig && ethChain(result0) == sgnChain(signer)
+//@ assume func github.com/ethereum/go-ethereum/core/types.(*Transaction).ChainId
+//@   modifies nothing
+//@   ensures result != nil && fresh(result) && big(result) == ethChain(self)
+//@ interface github.com/ethereum/go-ethereum/core/types.Signer
+//@   method Sender
+//@     modifies nothing
+//@     ensures err == nil ==> result0 == eip155Sender(sgnChain(self), ethBody(arg0), ethSig(arg0))
+
+// getEthSigner = ethtypes.NewEIP155Signer(utils.HashToBigInt(ctx.Header.ChainID)): assumed (hash/fnv and the signer
+// constructor are outside the verified subset); chainIdOf(s) is the FNV-32a value of the chain name.
+//@ assume func (*Transaction).getEthSigner
+//@   modifies nothing
+//@   ensures result != nil && sgnChain(result) == chainIdOf(ctx.Header.ChainID)
+
+// the unsigned Ethereum transaction rebuilt from the OLVM payload and the outer fee: what the embedded signature covers
+//@ ghost func olvmBody(nonce int, to *action.Address, value int, feeGas int, price int, data bytes) int = to == nil ? legacyCreate(nonce, value, wrapu64(feeGas), price, data) : legacyCall(nonce, ethAddrOf(*to), value, wrapu64(feeGas), price, data)
+
+//@ func (*Transaction).tmToEthTx
+//@   requires tx != nil
+//@   modifies nothing
+//@   ensures result != nil && fresh(result) && ethBody(result) == olvmBody(tx.Nonce, tx.To, tx.Amount.Value, raw.Fee.Gas, raw.Fee.Price.Value, tx.Data)     // C04.eth-body
+//@   ensures ethGas(result) == wrapu64(raw.Fee.Gas)                                                                                                         // C17.validated-facts
+
+// validateSigner (C04): accepted only if there is exactly one signature, the payload's ChainID is this chain's, and the
+// address recovered (EIP-155) from the embedded signature over the rebuilt Ethereum transaction equals tx.From.
+// Two calls in the body would panic on hostile input (C18): WithSignature on a signature that is not 65 bytes long,
+// and (*big.Int).Cmp(tx.ChainID) when the payload carries no chainID; since fix c43ca19 both are rejected first, and the
+// precondition of WithSignature (len(sig) == 65) and the nil-deref obligation of Cmp are proved.
+//@ func (*Transaction).validateSigner
+//@   safety C18
+//@   requires tx != nil && ctx != nil && ctx.Header != nil
+//@   modifies nothing
+//@   ensures err == nil ==> len(signedTx.Signatures) == 1                                                                                   // C04.count
+//@   ensures err == nil ==> str(tx.From) == str(ethAddrBytes(eip155Sender(chainIdOf(ctx.Header.ChainID), olvmBody(tx.Nonce, tx.To, tx.Amount.Value, signedTx.Fee.Gas, signedTx.Fee.Price.Value, tx.Data), signedTx.Signatures[0].Signed)))   // C04.eth-signer
+//@   ensures err == nil ==> tx.ChainID != nil && big(tx.ChainID) == chainIdOf(ctx.Header.ChainID)                                           // C04.chain-id
+
+// getters of ethtypes.Transaction used by validateEthTx: pure; Gas() returns the gas limit the object was built with
+//@ model ethGas(Tx) int
+//@ assume func github.com/ethereum/go-ethereum/core/types.(*Transaction).Type
+//@   modifies nothing
+//@ assume func github.com/ethereum/go-ethereum/core/types.(*Transaction).Size
+//@   modifies nothing
+//@ assume func github.com/ethereum/go-ethereum/core/types.(*Transaction).Value
+//@   modifies nothing
+//@   ensures result != nil
+//@ assume func github.com/ethereum/go-ethereum/core/types.(*Transaction).Gas
+//@   modifies nothing
+//@   ensures result == ethGas(self)
+//@ assume func github.com/ethereum/go-ethereum/core/types.(*Transaction).GasPrice
+//@   modifies nothing
+//@   ensures result != nil
+//@ assume func github.com/ethereum/go-ethereum/core/types.(*Transaction).Nonce
+//@   modifies nothing
+//@ assume func github.com/ethereum/go-ethereum/core/types.(*Transaction).Cost
+//@   modifies nothing
+//@   ensures result != nil
+//@ assume func github.com/ethereum/go-ethereum/core/types.(*Transaction).Data
+//@   modifies nothing
+//@ assume func github.com/ethereum/go-ethereum/core/types.(*Transaction).AccessList
+//@   modifies nothing
+//@ assume func github.com/ethereum/go-ethereum/core/types.(*Transaction).To
+//@   modifies nothing
+
+// strconv.ParseUint is a function of its string argument (base 10, 64 bit here)
+//@ assume extern func strconv.ParseUint
+//@   modifies nothing
+//@   ensures err == nil ==> result0 == memoNonce(s)
+
+// akOK(keeper) (data/balance/verif_contracts_keeper.go): the account keeper is wired and its State well formed
+//@ func (*Transaction).validateEthTx
+//@   safety C18
+//@   requires tx != nil && ethTx != nil && minFee != nil
+//@   requires keeper != nil && akOK(keeper)                                                                    // C18.ctx
+//@   modifies nothing
+//@   ensures err == nil ==> ethGas(ethTx) <= vmConst(0) && vmConst(0) == 100000000                            // C17.validated-facts
+
+// Validate (C04 for OLVM): one signature; the signer recovered from the embedded Ethereum signature is the payload's
+// From; the payload's ChainID is this chain's; the memo is the decimal nonce.
+//@ func (olvmTx).Validate
+//@   implements action.Tx
+//@   safety C18
+//@   assumes ctx.StateDB.accountKeeper != nil && akOK(ctx.StateDB.accountKeeper)                                                             // A-CTX wiring of CommitStateDB's account keeper, not yet part of ctxOK
+//@   ensures result0 ==> len(signedTx.Signatures) == 1 && str(unm(signedTx.Data, "Transaction").From) == str(ethAddrBytes(eip155Sender(chainIdOf(ctx.Header.ChainID), olvmBody(unm(signedTx.Data, "Transaction").Nonce, unm(signedTx.Data, "Transaction").To, unm(signedTx.Data, "Transaction").Amount.Value, signedTx.Fee.Gas, signedTx.Fee.Price.Value, unm(signedTx.Data, "Transaction").Data), signedTx.Signatures[0].Signed)))   // C04.eth-signer
+//@   ensures result0 ==> memoNonce(signedTx.Memo) == unm(signedTx.Data, "Transaction").Nonce                                                  // C04.memo-nonce
+//@   exports len(sigs) == 1                                                                                                                   // C04.validated-facts
+//@   exports raw.Fee.Price.Currency == ctx.FeePool.feeOpt.FeeCurrency.Name && raw.Fee.Price.Value >= 0                                        // C17.validated-facts
+//@   exports 0 <= raw.Fee.Gas && raw.Fee.Gas <= 100000000                                                                                     // C17.validated-facts
+//@   exports unm(raw.Data, "Transaction").Amount.Currency == "OLT" && unm(raw.Data, "Transaction").Amount.Value >= 0                           // C17.validated-facts
+//@   claims result0 ==> sigOK(rawBytesOf(signedTx.RawTx), unm(signedTx.Data, "Transaction").From, signedTx.Signatures[0])                      // C04.validate
+
+// ---------------------------------------------------------------- runOLVM (C17)
+//
+// formatting of EVM logs into event tags: no state (assumed: RLP encoding / bloom helpers are outside the subset)
+//@ assume func rlpLogsToTags
+//@   modifies nothing
+
+// runOLVM: what the EVM charged the sender is exactly Response.GasUsed * fee price (the number ProcessFee later passes to
+// action.ContractFeeHandling, which credits the same product to the fee pool); balances of everybody else move only by
+// EVM execution (value transfer / contract code); the nonce of the sender goes up by exactly one.
+//@ func runOLVM
+//@   dyncalls pure
+//@   safety C18
+//@   requires ctxOK(ctx)                                                                                                                   // C18.ctx
+//@   requires ctx.StateDB.contractStore != nil && ctx.StateDB.contractStore.State != nil && ctx.StateDB.contractStore.State.gc != nil       // C18.ctx
+//@   requires 0 <= rawTx.Fee.Gas && rawTx.Fee.Gas <= 100000000                                                                              // C17.validated-facts
+//@   ensures result0 ==> 0 <= result1.GasUsed && result1.GasUsed <= rawTx.Fee.Gas                                                           // C17.gas-charge
+//@   ensures result0 ==> evmBal(ctx.StateDB)[ethKey(ethAddrOf(unm(rawTx.Data, "Transaction").From))] == old(evmBal(ctx.StateDB))[ethKey(ethAddrOf(unm(rawTx.Data, "Transaction").From))] - result1.GasUsed * rawTx.Fee.Price.Value + (evmExec(ctx.StateDB)[ethKey(ethAddrOf(unm(rawTx.Data, "Transaction").From))] - old(evmExec(ctx.StateDB))[ethKey(ethAddrOf(unm(rawTx.Data, "Transaction").From))])   // C17.gas-charge
+//@   ensures result0 ==> forall k string :: k != ethKey(ethAddrOf(unm(rawTx.Data, "Transaction").From)) ==> evmBal(ctx.StateDB)[k] - old(evmBal(ctx.StateDB))[k] == evmExec(ctx.StateDB)[k] - old(evmExec(ctx.StateDB))[k]   // C17.gas-charge
+//@   ensures result0 && unm(rawTx.Data, "Transaction").To != nil ==> evmNonce(ctx.StateDB)[ethKey(ethAddrOf(unm(rawTx.Data, "Transaction").From))] == wrapu64(old(evmNonce(ctx.StateDB))[ethKey(ethAddrOf(unm(rawTx.Data, "Transaction").From))] + 1)   // C17.nonce-plus-one
+// ("a transaction that fails its pre-checks changes nothing" is the claims clause C17.failed-precheck-no-effect of
+//  vm.(*EVMTransaction).Apply / (*StateTransition).TransitionDb, which runOLVM only forwards.)
+
+// ProcessCheck / ProcessDeliver / ProcessFee implement the action.Tx contract; the validated-facts preconditions of the
+// bodies are discharged from the exports of Validate. txDeliverer (app/controller.go) passes
+// storage.Gas(response.GasUsed) of ProcessDeliver as gasUsed of ProcessFee: the sender's EVM debit and the fee-pool
+// credit are the same product GasUsed * Fee.Price.
+//@ func (olvmTx).ProcessCheck
+//@   implements action.Tx
+//@   safety C18
+//@   ensures ok && result1.GasUsed == -1                                                                                                    // C17.skip-fee
+
+// A-CTX: wiring of the contract store inside CommitStateDB (GetAvailableGas dereferences it); to be moved into ctxOK.
+//@ func (olvmTx).ProcessDeliver
+//@   implements action.Tx
+//@   dyncalls pure
+//@   safety C18
+//@   assumes ctx.StateDB.contractStore != nil && ctx.StateDB.contractStore.State != nil && ctx.StateDB.contractStore.State.gc != nil        // A-CTX wiring of CommitStateDB, not yet part of ctxOK
+//@   ensures ok ==> 0 <= result1.GasUsed && result1.GasUsed <= rawTx.Fee.Gas                                                                // C17.gas-charge
+//@   ensures ok ==> evmBal(ctx.StateDB)[ethKey(ethAddrOf(unm(rawTx.Data, "Transaction").From))] == old(evmBal(ctx.StateDB))[ethKey(ethAddrOf(unm(rawTx.Data, "Transaction").From))] - result1.GasUsed * rawTx.Fee.Price.Value + (evmExec(ctx.StateDB)[ethKey(ethAddrOf(unm(rawTx.Data, "Transaction").From))] - old(evmExec(ctx.StateDB))[ethKey(ethAddrOf(unm(rawTx.Data, "Transaction").From))])   // C17.gas-charge
+
+// A-GASUSED: gasUsed is Response.GasUsed of this handler's ProcessDeliver/ProcessCheck (>= -1 by their contracts above);
+// the action.Tx interface contract does not carry that number from ProcessDeliver to ProcessFee yet.
+//@ func (olvmTx).ProcessFee
+//@   implements action.Tx
+//@   safety C18
+//@   assumes gasUsed >= -1                                                                                                                 // A-GASUSED Response.GasUsed of ProcessDeliver/ProcessCheck, not carried by the Tx interface contract
+//@   ensures ok && gasUsed != -1 ==> fee(ctx.FeePool)["00000000000000000000"] == old(fee(ctx.FeePool))["00000000000000000000"] + signedTx.Fee.Price.Value * gasUsed && result1.GasUsed == gasUsed   // C17.fee-pool
+//@   ensures !ok || gasUsed == -1 ==> fee(ctx.FeePool)["00000000000000000000"] == old(fee(ctx.FeePool))["00000000000000000000"]             // C17.fee-pool
